@@ -3,7 +3,7 @@
    positive / N / Z / nat stay the extracted inductives. *)
 Require Extraction.
 Require Import ExtrOcamlBasic.
-From DMCG Require Import IdentInst Escape EscapeTables Relative SortModels Plumbing PlumbingTables Version FieldSem EnumModel TypeHint Imports Resolver.
+From DMCG Require Import IdentInst Escape EscapeTables Relative SortModels Plumbing PlumbingTables Version FieldSem EnumModel TypeHint Imports Resolver Gql.
 Cd "extract".
 Extraction "Model.ml" U0 get_valid_name field_name_and_alias camel_to_snake s2uc
   translate enum_table regex_table tdkey_table lex_sq lex_raw lex_tq doc_enc raw_safe comment_ok
@@ -13,5 +13,6 @@ Extraction "Model.ml" U0 get_valid_name field_name_and_alias camel_to_snake s2uc
   parse_enum enum_nullable find_member
   th show render rn make_optional
   Imports.run Imports.dump_lines Imports.empty Imports.ops_ok
-  get_unique_name assign_unique grp apply_rel.
+  get_unique_name assign_unique grp apply_rel
+  field_dt field_required.
 Cd "..".
